@@ -49,7 +49,8 @@ TIE = ("S: every call of the real process_peering_event (direct calls on generat
        "labels wake/wakeIssue/land/sleeping, exit, exitBegin/exitEnd, exitLost, kill, and the ghost nextKA/Allowed; for these the "
        "simulation oracle is the only link to the code (the stop ORDER of 26a293c is held by the oracle clauses D/H and the "
        "regressions F7, F9, exit_handler_ignores_cancel)")
-LEVEL_TEXT = ("Lean theorems, STRENGTH partial. FULL (no guard): per call, all status contents: paused_iff, turned_iff, dead_cleaned, "
+LEVEL_TEXT = ("Lean theorems, STRENGTH partial. FULL (no guard): per call, all status contents: foreign_object_ignored (an event of "
+              "another peering object does nothing), paused_iff, turned_iff, dead_cleaned, "
               "wake_at_deadline; arithmetic keepalive_period, renewal, renewal_lifetime_one. FULL, for EVERY view and EVERY label list "
               "(new with 054d47d - F4's lasting half and F5 were the negation): stale_clean_refused (a clean from an older version "
               "changes nothing), clean_removes_only_dead (what a clean removes is dead in the CURRENT status and somebody else's), "
@@ -77,7 +78,7 @@ LEVEL_TEXT = ("Lean theorems, STRENGTH partial. FULL (no guard): per call, all s
               "once an operator is active: 3cc60e3 drops the stale event, the re-listing brings the state), inevitability of resume "
               "/ convergence, API failures inside a call. The model is hand-written; see TIE for what is and is not compared.")
 THEOREMS = [("Kopf.Props.C13", "Kopf.C13." + n) for n in [
-    "paused_iff", "turned_iff", "dead_cleaned", "wake_at_deadline",
+    "foreign_object_ignored", "paused_iff", "turned_iff", "dead_cleaned", "wake_at_deadline",
     "stale_clean_refused", "clean_removes_only_dead", "live_record_kept", "stale_same_verdict",
     "exactly_top_partial", "at_most_one_active_partial", "equal_priority_both_paused_partial",
     "stale_verdict_two_active_witness", "restart_stale_view_record_kept",
@@ -99,13 +100,22 @@ RULE = ("(1) direct calls: status of 0-5 records over a small identity pool (own
         "an edit), 10%: API responses delayed after the write is applied, stops during the first keep-alive, 15%: a waiting operator "
         "is asked to stop at the very tick its sleep towards a blocker's deadline ends (self-touch and withdrawal in flight "
         "together; own random stream derived from the history's seed), 5% (same own stream): churn - everybody lifetime 2 and "
-        "peering events 0.5-0.75 s late (inside the margin) + a dead foreign record (F10). A case is one "
+        "peering events 0.5-0.75 s late (inside the margin) + a dead foreign record (F10); third own stream (white-box round): 20% "
+        "namespaced operators peering through the KopfPeering of their namespace, 40% daemons that end only when CANCELLED, 50% a "
+        "timer (0.5-2 s), 20% another peering object of the same kind beside the own one (a name that begins/ends like it; a live "
+        "top-priority record without lastseen and a dead one in it), half of the foreign records stamped in a local time (UTC "
+        "offsets +02:00, -05:30, +05:45, -01:00). Direct calls: 30% of the lastseen values in a local time; events of foreign "
+        "objects named 'default-2', 'default.', 'xdefault', 'defaul', 'Default', '' ...; half of the events carry a resourceVersion "
+        "(the clean must name it). A case is one "
         "process_peering_event call (direct or simulated) "
         "or one keep-alive round or one write / stale-view step of the transition system; distinct & non-trivial = distinct abstracted (toggle-before, #dead, #prio, #same, own-record, "
         "error, sleep-kind, touch) tuples with a non-empty status.")
 TRUSTED = ["harness/sim (virtual-time loop, fake API server incl. merge-patch of `status` and the 409 for a merge-patch that names another "
            "metadata.resourceVersion than the stored one - added to fakeapi.py for this property), harness/props/sim_c13.py "
-           "(attribute-level observation of toggles / peering calls / handlers / watch requests)",
+           "(attribute-level observation of toggles / peering calls / handlers / watch requests; what a call cleans and whether it "
+           "touches is read off the PATCH requests it issues - at the fake API in the histories, at peering.patching.patch_obj in the "
+           "direct calls: requests before the call's sleep remove records, the one after an undisturbed sleep writes the own record - "
+           "not off which helper of `peering` issued them)",
            "abstraction of a status: `lastseen` text -> ticks via iso8601 (kopf's own parser); everything else verbatim",
            "the keep-alive jitter (random.randint(5, 10) as seen from peering.keepalive) is drawn per operator incarnation from a "
            "stream derived from the history's seed, or pinned by the scenario (`jitters`), instead of the process-wide `random`",
@@ -151,12 +161,19 @@ ASSUMPTIONS = ["one virtual clock shared by all operators (no clock skew between
                "raises, as for a garbled record (modelled: `tdOk`/`dtOk`, relative to the simulation epoch 2030-01-01; generated in the "
                "direct calls incl. the last representable values; the oracle does not judge such records); a live blocker whose deadline "
                "is ~2.5e11 s away gives a delay that is off the tick grid as a float: that case is counted as offgrid-skipped",
+               "records stamped in a local time (lastseen with a UTC offset other than +00:00) are generated (direct calls, foreign records "
+               "of the histories) except together with a lifetime whose deadline lies within a day of the end/beginning of datetime's "
+               "range: whether Peer() overflows there depends on the offset (aware datetimes are added in local time)",
                "an API error inside clean()/touch() of process_peering_event makes the call raise and (since 9ef1bcb) the operator stop: "
                "`deliver` cannot fail in the model; likewise a garbled record (any theorem is silent on `= .error`): one malformed "
                "record written by anybody raises in every peer",
                "the transition system starts operators pre-paused (mandatory peering, as in the simulations); with optional peering an "
                "operator is active until its first peering event",
-               "ORACLE-ONLY clauses (no Lean theorem): paused => watch streams closed; daemons stopped; no change handling beyond events "
+               "ORACLE-ONLY clauses (no Lean theorem): paused => watch streams closed; daemons stopped - those that poll their stop flag "
+               "and those that end only by cancellation (cancellation_timeout=1 s) - and timers not fired (grace 2 s); after W + 3 s of "
+               "undisturbed activity the daemon of every served object runs again (clause R; not judged when a daemon was still on its way "
+               "out at the un-pausing: kopf documents that case); a withdrawal that the API refuses on its merits (409/4xx, no injected "
+               "fault) is the operator's failure, not the environment's; no change handling beyond events "
                "already queued; no handler executed twice because of the pause - within one operator and (clause H) across operators, "
                "an operator counting as running until its stop has COMPLETED; the last change of an object is handled once an operator "
                "has been active undisturbed for W + 1 + consistency_timeout + 1 s (clause G2); convergence / resume are inevitable (only "
@@ -178,6 +195,7 @@ IDS = ["me", "op-a", "op-b", "ghost", "dev@host/20300101000000/x1z", "ünï-ç"]
 BAD_PRIO = ["10", "high", None, [1], {"a": 1}]
 HUGE_LIFE = [10 ** 12, -10 ** 12, 10 ** 15, 86399999999999, 86400000000000, -86399999913600, -86399999913601,
              {"to_max": 0}, {"to_max": 0}, {"to_max": -1}, {"to_max": 1}, {"to_min": 0}, {"to_min": -1}, {"to_min": 1}]
+FOREIGN_NAMES = ["other", "default-2", "default.", "defaultx", "xdefault", "defaul", "Default", "DEFAULT", " default", "", "d"]
 BAD_LIFE = ["30", "86400", " 7 ", "+4", "1_0", "-2", "abc", "", "1.5", "0x10", "1__0", "_1", None, [1], {"a": 1}]
 
 
@@ -209,6 +227,11 @@ def gen_record(rng: Any, my_prio: int) -> Any:
         life = r["lifetime"] = rng.choice(HUGE_LIFE)
     c = rng.random()
     fmt = rng.choice(["full", "full", "full", "naive", "z", "space"])
+    if not isinstance(life, dict) and (c * 1000) % 1 < 0.3:
+        # 30%: stamped in a local time with a UTC offset (the same instant). (Not with a deadline within hours of the end of
+        # `datetime`'s range: representable or not depending on the offset - aware datetimes are added in their local time:
+        # see ASSUMPTIONS. The choice hangs on the digits of a draw already made: the stream of `rng` stays what it was.)
+        fmt = ["tz120", "tz-330", "tz345"][int(c * 10000) % 3]
     life_i = life if isinstance(life, int) and abs(life) < 10 ** 7 else 60
     if c < 0.10:
         pass
@@ -241,6 +264,13 @@ def gen_direct(rng: Any) -> dict:
             "autoclean": rng.random() < 0.9, "name_ok": rng.random() < 0.97, "status_mode": mode, "records": records,
             "latency": rng.choice([0, 1, 1, 2, 64]), "gap": rng.choice([1, 3, 64]),
             "interrupt": None if rng.random() < 0.7 else rng.choice([1, 5, 100, 4000])}
+    # (own stream, derived from the case: the draws of `rng` - and with them the histories generated after the direct cases - stay)
+    r2 = random.Random(json.dumps(case, sort_keys=True, default=repr))
+    if not case["name_ok"]:
+        # another peering object of the same kind: any name but ours, also names that merely look like it
+        case["name"] = r2.choice(FOREIGN_NAMES)
+    if r2.random() < 0.5:
+        case["rv"] = r2.choice([1, 7, 12345])         # the event carries a resourceVersion (as every real one does)
     if any(isinstance(r, dict) and (isinstance(r.get("lifetime"), dict) or (type(r.get("lifetime")) is int and abs(r["lifetime"]) > 10 ** 7))
            for _i, r in records):
         # a live blocker whose deadline is thousands of years away: the sleep towards it is always interrupted (a new event),
@@ -295,6 +325,15 @@ def expected_from_statement(status: Any, me: str, my_prio: int, now_s: float) ->
 
 
 def direct_oracle(ctx: Ctx, case: dict, res: dict) -> None:
+    if not case.get("name_ok", True):
+        # "in ITS peering object": whoever is in another peering object (another neighbourhood) is not a peer - nothing
+        # is observed, nothing is cleaned, nothing is written, the toggle stays
+        did = {k: res[k] for k in ("cleaned", "turned", "touched", "error") if res[k]}
+        if did or res.get("n_patches_all") or (case["toggle"] is not None and res["paused_end"] != bool(case["toggle"])):
+            ctx.oracle_fail(f"an event of the peering object {case.get('name', 'other')!r} (the operator's own is 'default') was acted upon: {did}",
+                            {"direct_case": case, "result": _slim(res)},
+                            {"site": "process_peering_event", "shape": "a foreign peering object is not ignored"})
+        return
     exp = expected_from_statement(res["status"], case["me"], case["prio"], res["now"] / TPS) if case.get("name_ok", True) else None
     if exp is None or res["error"] is not None and res["error"] != "cancelled":
         if exp is not None and res["error"] is not None:
@@ -506,6 +545,26 @@ def gen_history(rng: Any, seed: int) -> dict:
         sc["timeline"] = sorted(sc["timeline"] + [[tg, "ghost_rel", {"ghost-churn": {"priority": r2.choice([9999, -9999]), "lifetime": 3, "age": 10}}]],
                                 key=lambda e: e[0])
         sc["churn"] = True
+    # Configurations (a third own stream: the histories above stay what they were): namespaced operators peering through a
+    # KopfPeering of their namespace; daemons that end only when CANCELLED; a timer; other peering objects of the same kind
+    # beside ours (names that look like ours; live top-priority and dead records in them); records stamped in local times.
+    r3 = random.Random(seed * 104729 + 71)
+    if r3.random() < 0.2:
+        sc["scope"] = "namespaced"
+    if r3.random() < 0.4:
+        sc["daemon_mode"] = "cancel"
+    if r3.random() < 0.5:
+        sc["timer"] = r3.choice([0.5, 1.0, 1.0, 2.0])
+    if r3.random() < 0.2:
+        pn = sc["peering"]
+        sc["other_peerings"] = {r3.choice([pn + "-2", pn + "x", "x" + pn, pn[:-1], "other"]): {
+            "boss": {"priority": 99999, "lifetime": 3600},                                           # never expires (no lastseen)
+            "old-dead": {"priority": 500, "lifetime": 5, "lastseen": "2029-12-31T23:00:00+00:00"}}}
+    for e in sc["timeline"]:
+        if e[1] == "ghost_rel" and r3.random() < 0.5:
+            for v in e[2].values():
+                if isinstance(v, dict) and "age" in v:
+                    v["tz"] = r3.choice([120, -330, 345, -60])
     return sc
 
 
@@ -806,9 +865,12 @@ def oracle_history(ctx: Ctx, sc: dict, tr: dict, full: bool = False) -> dict:
                 tried = [q for q in tr["requests"] if q["res"] == "peering" and q["method"] == "PATCH" and q["who"] == i["who"]
                          and q["t"] >= i["t_stop_req"] and i["identity"] in ((q.get("payload") or {}).get("status") or {})
                          and ((q.get("payload") or {}).get("status") or {})[i["identity"]] is None]
-                if tried and not any(q.get("response") == 200 for q in tried):
+                if tried and not any(q.get("response") == 200 for q in tried) and all(q.get("injected") or q.get("response") == "dead-session"
+                                                                                     or not isinstance(q.get("response"), int) for q in tried):
                     stats["withdrawals_lost_to_api_errors"] = stats.get("withdrawals_lost_to_api_errors", 0) + 1
-                    continue            # the API refused every withdrawal attempt: the record can only expire (environment, not kopf)
+                    continue            # the API (an injected fault of the scenario) refused every withdrawal attempt: the record can
+                    #                     only expire (environment, not kopf). A withdrawal the API refuses on its merits (409, 4xx)
+                    #                     is the operator's: it asked for something else than "remove my record"
                 vals = [q["payload"]["status"][i["identity"]] for q in mine]
                 # in LANDING order: the withdrawal, then a record of its own written by the operator itself
                 own_w = [w for w in tr.get("writes", []) if w["who"] == i["who"] and isinstance(w["patch"], dict)
@@ -930,7 +992,8 @@ def oracle_history(ctx: Ctx, sc: dict, tr: dict, full: bool = False) -> dict:
                     continue
                 if r["watch"]:
                     for d in r.get("delivered", []):
-                        got.add((d[2], d[3]))
+                        if d[0] <= p0 + LAT:        # ... and delivered before it (a stream left open delivers on)
+                            got.add((d[2], d[3]))
                 elif r["method"] == "GET":
                     for name, v in r.get("listed", []):
                         got.add((name, v))
@@ -942,6 +1005,12 @@ def oracle_history(ctx: Ctx, sc: dict, tr: dict, full: bool = False) -> dict:
                     break
             grace = 2.0
             for c in calls_by_inc.get(i["inc"], []):
+                # timers are stopped like the daemons: none fires in a pause (after the same grace)
+                if c["kind"] == "timer" and p0 + grace < c["t"] < p1:
+                    fail(f"timer of paused operator {i['name']} fired at {c['t']} on {c['name']}; paused since {p0}",
+                         "pause: timer not stopped", inc=i["inc"], t=c["t"])
+                    break
+            for c in calls_by_inc.get(i["inc"], []):
                 if c["kind"] != "daemon":
                     continue
                 t1 = c.get("t_end")
@@ -950,6 +1019,37 @@ def oracle_history(ctx: Ctx, sc: dict, tr: dict, full: bool = False) -> dict:
                     fail(f"daemon of paused operator {i['name']} (started {c['t']}) still runs at {lo}; paused since {p0}",
                          "pause: daemon not stopped", inc=i["inc"], t=lo)
                     break
+        # ---- (R) "it resumes": once the operator has been active, undisturbed, for W + 3 s, the daemon of every object it serves
+        # runs again (the re-listing that follows the un-pausing spawns it). Not judged when a daemon of that object was still on
+        # its way out when the operator resumed (kopf documents that a re-pausing faster than the daemon stops delays the respawn).
+        if timely and sc.get("daemon", True):
+            need_r = H.W + 3.0
+            act: list[tuple[float, float]] = []
+            cur_a = None
+            for (t, v) in [(t, v) for (t, v) in ev if t >= made] + [(t_to, True)]:
+                if not v and cur_a is None and t < t_to:
+                    cur_a = t
+                elif v and cur_a is not None:
+                    act.append((cur_a, min(t, t_to)))
+                    cur_a = None
+            dcalls = [c for c in calls_by_inc.get(i["inc"], []) if c["kind"] == "daemon"]
+            for (a0, a1) in act:
+                tchk = a0 + need_r
+                if a1 - a0 < need_r or tchk >= H.t_end:
+                    continue
+                for name, hh in kh.items():
+                    if not hh or hh[0]["t"] > a0 or any(h.get("event") == "DELETED" for h in hh):
+                        continue
+                    mine_d = [c for c in dcalls if c["name"] == name]
+                    if any(c["t"] < a0 and (c.get("t_end") is None or c["t_end"] > a0) for c in mine_d):
+                        continue
+                    stats["daemons_owed"] = stats.get("daemons_owed", 0) + 1
+                    if not any(c["t"] <= tchk and (c.get("t_end") is None or c["t_end"] > tchk) for c in mine_d):
+                        fail(f"operator {i['name']} is active (un-paused) since {a0}, yet at {tchk} the daemon of object {name} does not run "
+                             f"(its runs: {[(c['t'], c.get('t_end')) for c in mine_d][-3:]})", "resume: daemon not running again after the pause",
+                             inc=i["inc"], t=tchk)
+                        break
+
         # nothing handled twice by one operator process
         seen: dict[tuple, dict] = {}
         for c in calls_by_inc.get(i["inc"], []):
@@ -1171,6 +1271,10 @@ def check_direct(ctx: Ctx, cases: list[dict], reqs: list, impls: list, wheres: l
                 ctx.count("direct", "offgrid-skipped")
                 continue
             direct_oracle(ctx, case, res)
+            if case.get("rv") is not None and any(rv != str(case["rv"]) for rv in res.get("clean_rv", [])):
+                ctx.tie_fail(f"clean() named resourceVersion {res['clean_rv']} in its patch, the event it judged was at {case['rv']!r}: the "
+                             f"model's conditional clean (the version of the judged view) is not what the code does",
+                             {"direct_case": case, "result": _slim(res)})
             if not res.get("clean_ok", True):
                 ctx.oracle_fail("clean() patched something else than {status: {dead identity: null}} of the configured peering object",
                                 {"direct_case": case, "result": _slim(res)}, {"site": "peering.clean", "shape": "patch shape"})
@@ -1293,12 +1397,17 @@ def judge(sc: dict, tr: dict, full: bool = False) -> dict:
     if sc.get("churn"):
         col.count("history.churn", f"{len(sc['ops'])} operators, lifetime 2, delivery {max(sc['delivery'].values())}")
     col.count("history.events", ",".join(sorted({e[1] for e in sc["timeline"]})))
+    col.count("history.config", f"scope={sc.get('scope', 'cluster')},daemon={sc.get('daemon_mode', 'obey') if sc.get('daemon', True) else 'none'},"
+                                f"timer={'yes' if sc.get('timer') else 'no'},other-peering-objects={'yes' if sc.get('other_peerings') else 'no'}")
+    col.count("history.foreign_object_events", "ignored", sum(1 for p in tr["pcalls"] if not p["name_ok"]))
+    col.count("history.timer_calls", "total", sum(1 for c in tr["calls"] if c["kind"] == "timer"))
+    col.count("history.local_time_records", "total", sum(1 for e in sc["timeline"] if e[1] == "ghost_rel" and any(isinstance(v, dict) and v.get("tz") for v in e[2].values())))
     for n, p in enumerate(tr["pcalls"]):
         if p["now2"] is None and p["error"] in (None, "cancelled") and p["name_ok"]:
             continue            # cancelled before it got anywhere (operator exit)
         if p["error"] not in (None, "cancelled"):
             impl: Any = ["err", sim_c13.ERR_ENUM.get(p["error"], "other:" + p["error"])]
-        elif not p["name_ok"]:
+        elif not p["name_ok"] and p["now2"] is None and not p["cleaned"] and not p["turned"] and not p["touched"]:
             impl = "ignored"
         else:
             turned = p["turned"]
@@ -1307,6 +1416,9 @@ def judge(sc: dict, tr: dict, full: bool = False) -> dict:
             if p["unslept"] is None and p["finished"]:
                 impl["sleep"] = p["slept"] if p["slept"] else None
                 impl["touch"] = p["touched"]
+        if p.get("odd_patches"):
+            col.tie_fail("a process_peering_event call sent a PATCH the model has no counterpart for (before its sleep it only removes "
+                         "records, after an undisturbed sleep it only writes its own)", {"scenario": sc, "call": p})
         interrupted = not (isinstance(impl, dict) and "sleep" in impl)
         calls.append([decide_request(sim_c13.abstract_status(p["status"]), p["me"], p["prio"], p["autoclean"], p["name_ok"],
                                      p["toggle_before"], p["t0"], p["now2"] if p["now2"] is not None else p["t0"]), impl, interrupted])
@@ -1368,6 +1480,14 @@ def judge(sc: dict, tr: dict, full: bool = False) -> dict:
                                    "regime": "late" if stats.get("late_regime") else "timely"}],
                     {"status": after, "paused": p["toggle_after"], "refused": refused}])
         col.count("lts.stale", ("refused (409)" if refused else "applied") + (", view==current" if view == cur else ", view older than current"))
+    # the only CONDITIONAL writes (a PATCH naming a resourceVersion) of the model are the cleans of `deliverStale`: keep-alives,
+    # self-touches and the withdrawal are unconditional (`keepalive`, `wake`, `exitEnd`: they cannot be refused)
+    for w in list(tr.get("writes", [])) + list(tr.get("refused", [])):
+        pt = w.get("patch")
+        if w.get("rv_sent") is not None and not (isinstance(pt, dict) and pt and all(v is None for v in pt.values())
+                                                   and not any(i["who"] == w["who"] and i["identity"] in pt for i in tr["incs"])):
+            col.tie_fail(f"a write of {w['who']} to the peering object that is not a clean of others' records names a resourceVersion "
+                         f"({w.get('rv_sent')}): in the model only the cleans are conditional", {"scenario": sc, "write": w})
     for kk in tr["ka"]:
         if kk["lifetime"] is None:
             continue
